@@ -351,6 +351,7 @@ def run(ctx):
     # ---------------- R14.7 a division by an untrusted value is preceded by a test of that value
     _divisions(ctx, F, reach)
     _data_arg_counts(ctx, F, reach)
+    _rejection_unwraps(ctx, F, reach)
 
     # ---------------- R14.4 no dead rejection
     ERR_ENUMS = ["cairo_lang_sierra::program_registry::ProgramRegistryError",
@@ -896,6 +897,49 @@ def _data_arg_counts(ctx, F, reach):
                "%s walks its data arguments without fixing their number: surplus arguments of a const type are accepted, and "
                "the later stages lay out every one of them" % last_seg(p), f.where())
     ctx.floor("const data validators (R14.8)", n, 4)
+
+
+REJECTION_TYPE = "cairo_lang_sierra::extensions::error::SpecializationError"
+_UNWRAP = re.compile(r"^core::result::Result::<T, E>::(unwrap|expect)$")
+
+
+def _unwraps_rejection(callee):
+    """The callee of a call terminator is `Result<_, E>::unwrap / expect` with E the rejection type of specialisation."""
+    if not isinstance(callee, dict) or not _UNWRAP.match(callee.get("path", "")):
+        return False
+    args = callee.get("args") or []
+    return len(args) > 1 and REJECTION_TYPE in args[1]
+
+
+def _rejection_unwraps(ctx, F, reach):
+    """R14.9: the rejection channel of specialisation is never unwrapped.  Specialisation of a type or libfunc is the
+    first thing that looks at the generic arguments of an untrusted declaration, so nothing earlier can have established
+    that a `Result<_, SpecializationError>` is `Ok`: `unwrap()` / `expect()` on one turns the rejection of a malformed
+    declaration into a panic (found on the unchanged tree in `dummy_function_call`, fix: 2cbb2b3).  Expected count: zero;
+    the producers of the type are counted so that the rule cannot pass because the type moved."""
+    n_prod = n_calls = 0
+    for p in sorted(reach):
+        f = F.fns[p]
+        if not f.body:
+            continue
+        if REJECTION_TYPE in (f.local_ty(0) or ""):
+            n_prod += 1
+        ords = Counter()
+        for c in f.calls():
+            n_calls += 1
+            if _unwraps_rejection(c.callee):
+                ctx.analysed(f)
+                nm = c.name()
+                ords[nm] += 1
+                ctx.ob("R14.9", "%s|%s#%d" % (fn_key(p), nm, ords[nm]), False,
+                       "a Result<_, SpecializationError> is unwrapped on the untrusted-Sierra path: the rejection of a malformed "
+                       "declaration becomes a panic", c.where())
+    ctx.ob("R14.9", "rejection-channel", n_prod > 0,
+           "%d reachable routines return Result<_, SpecializationError>; none of the %d calls on the path unwraps one" % (n_prod, n_calls), "")
+    ctx.floor("routines returning the specialisation rejection type (R14.9)", n_prod, 300)
+    ctx.control("unwrap of a Result<_, SpecializationError> is recognised",
+                _unwraps_rejection({"path": "core::result::Result::<T, E>::unwrap", "args": ["alloc::vec::Vec<u8>", REJECTION_TYPE]})
+                and not _unwraps_rejection({"path": "core::result::Result::<T, E>::unwrap", "args": ["u8", "core::num::error::ParseIntError"]}))
 
 
 def _controls(ctx, F, wrappers):
